@@ -468,6 +468,12 @@ def r7_prune_discipline(ctx, rule):
         return
     n = 0
     bad = unk = False
+    # the transition list by its role: the first element of what _find_cp returns (`cp_index` in the reference)
+    none_tests = {'cp_index is None'}
+    for a_ in walk_stmts(fn.body):
+        if isinstance(a_, ast.Assign) and len(a_.targets) == 1 and isinstance(a_.targets[0], ast.Tuple) and a_.targets[0].elts \
+                and isinstance(a_.targets[0].elts[0], ast.Name) and isinstance(a_.value, ast.Call) and call_name(a_.value).endswith('_find_cp'):
+            none_tests.add('%s is None' % a_.targets[0].elts[0].id)
     for st in walk_stmts(fn.body):
         if not (isinstance(st, ast.Return) and (st.value is None or const(st.value) is None)):
             continue
@@ -475,7 +481,7 @@ def r7_prune_discipline(ctx, rule):
         conds = path_conditions(mod, st)
         for t, pol in conds:
             txt = U(t)
-            if txt in ('cp_index is None', 'length == 1') and pol:
+            if (txt in none_tests or txt == 'length == 1') and pol:
                 continue
             if not pol:
                 continue    # fall-through of an earlier guard whose body left the function: judged at that guard
